@@ -114,8 +114,16 @@ func verifyFunc(prog *Prog, sp *FuncSpec) (res *FuncResult) {
 		if fv.u.declared["in:"+n] {
 			n = fv.u.freshName(name)
 		}
-		fv.u.declare("in:"+n, fmt.Sprintf("(declare-const %s %s)", n, s.Name))
-		t := Term{n, s}
+		var t Term
+		if s.Kind == KStruct {
+			fv.u.declared["in:"+n] = true
+			ex := fv.u.explodedConst(n+".f", s)
+			fv.u.decls = append(fv.u.decls, fmt.Sprintf("(define-fun %s () %s %s)", n, s.Name, ex.S))
+			t = Term{n, s}
+		} else {
+			fv.u.declare("in:"+n, fmt.Sprintf("(declare-const %s %s)", n, s.Name))
+			t = Term{n, s}
+		}
 		st.vars[v] = t
 		fv.assumeTyped(st, t, v.Type())
 		if s.Kind == KRef && s.Key == nil {
@@ -212,8 +220,15 @@ func verifyLemma(prog *Prog, sp *FuncSpec) (res *FuncResult) {
 		p := sig.Params().At(i)
 		s := fv.mustSort(p.Type(), "lemma parameter")
 		n := p.Name() + "!in"
-		fv.u.declare("in:"+n, fmt.Sprintf("(declare-const %s %s)", n, s.Name))
-		t := Term{n, s}
+		var t Term
+		if s.Kind == KStruct {
+			ex := fv.u.explodedConst(n+".f", s)
+			fv.u.decls = append(fv.u.decls, fmt.Sprintf("(define-fun %s () %s %s)", n, s.Name, ex.S))
+			t = Term{n, s}
+		} else {
+			fv.u.declare("in:"+n, fmt.Sprintf("(declare-const %s %s)", n, s.Name))
+			t = Term{n, s}
+		}
 		vals = append(vals, t)
 		fv.assumeTyped(st, t, p.Type())
 	}
